@@ -467,6 +467,21 @@ func initOsStubs() {
 		if !ex.dirExists(dir) {
 			return ex.pathError("rename", to, "ErrNotExist")
 		}
+		// rename(2) does not cross file systems: when source and destination
+		// lie in different directories they may be on different devices (the
+		// system temporary directory and a data volume, say), and then the
+		// call fails with EXDEV. Explored both ways from the first crash
+		// window on; within one directory it cannot happen.
+		if fdir, _ := ex.dirOf(from); ex.fs().windows > 0 && !ex.strSame(fdir, dir) {
+			x := ex.draw("fs:rename-crosses-devices", "fmt", 8, 0, 1)
+			if ex.branch(ex.ts.Eq(x, ex.ts.Const(8, 1))) {
+				lt := ex.P.namedType("os", "LinkError")
+				et := ex.P.namedType("syscall", "Errno")
+				cell := new(Value)
+				*cell = Struct{ex.strLit("rename"), from, to, Iface{T: et, V: ex.ts.Const(64, 18)}}
+				return Iface{T: types.NewPointer(lt), V: Ptr{P: cell}}
+			}
+		}
 		ex.crashPoint("rename " + from.Describe() + " -> " + to.Describe())
 		// atomic replace
 		if old := ex.findFile(to); old != nil && old != f {
